@@ -230,7 +230,7 @@ def run(ctx):
     r3c = ctx.rule("PAIR.pop", "ep_pop: empty test first; after it exactly one `n--` and one head advance; frame pointer and flag are read at the old head before the advance", floor=4)
     ndec = [s for s in paths.field_stores(pop, REC, "n")]
     advp = [n for (g, n) in advances if g is pop]
-    okp = len(ndec) == 1 and ndec[0]["op"] == "--" and len(advp) == 1 and paths.same_block(pop, ndec[0]["node"], advp[0])
+    okp = len(ndec) == 1 and ndec[0]["op"] == "--" and len(advp) == 1 and paths.paired(pop, ndec[0]["node"], advp[0])
     ctx.check(r3c, okp, key(pop, "n--&advance"), pop.where(pop.root), "ep_pop does not pair exactly one `n--` with one head advance")
     if advp:
         g = paths.guarded(pop, advp[0], lambda f, c, pol: (not pol) and f.canon(c, subst=False).startswith("ep_empty("))
